@@ -493,7 +493,7 @@ def check_c09(A: Analysis, has_halt_rule: bool) -> Dict[str, Any]:
             raise Violation("C09.normal_agent_once_per_step", f"step {s['t']}: consultations {nc}")
         if any(a not in normal for a, n in nc):
             raise Violation("C09.agent_classification", "a high-frequency agent was consulted as a normal agent")
-        cap = cs["maxNormalOrders"]
+        cap = cs.get("maxNormalOrders", 1)
         prod = 0
         for a, n in nc:
             if prod >= cap:
@@ -527,8 +527,8 @@ def check_c09(A: Analysis, has_halt_rule: bool) -> Dict[str, Any]:
                     g = []
                     groups.append(g)
                 g.append((kw["agent"], kw["n"]))
-        hcap = cs["maxHighFrequencyOrders"]
-        rate = cs["highFrequencySubmitRate"]
+        hcap = cs.get("maxHighFrequencyOrders", 1)
+        rate = cs.get("highFrequencySubmitRate", 1.0)
         for g in groups:
             if len(set(a for a, n in g)) != len(g):
                 raise Violation("C09.hft_once_per_group", f"step {s['t']}: group {g}")
